@@ -157,6 +157,29 @@ def main():
         filling = rng.random() < 0.3
         cases.append(make_case(ons, vow, sep, filling, utts, with_phones, rng.random() < 0.4, rng.random() < 0.4,
                                'generated-%s' % ('valid' if valid else 'mixed'), valid))
+    # histories: ONE Syllabifier instance reused for several calls with different options and
+    # overlapping texts; every call must equal the model's answer for that call alone
+    for k in range(400 if ck.thorough else 60):
+        ons, vow, cons = gen_inventory(rng)
+        sep = SEPS[k % len(SEPS)]
+        filling = rng.random() < 0.3
+        pool = [[gen_word(rng, ons, vow, cons, True) for _ in range(rng.randint(1, 3))] for _ in range(3)]
+        with_phones = sep[0] is not None and rng.random() < 0.5
+        try:
+            inst = Syllabifier(list(ons), list(vow), separator=Separator(*sep), filling_vowel=filling)
+        except Exception:
+            continue
+        for step in range(rng.randint(2, 4)):
+            utts = [rng.choice(pool) for _ in range(rng.randint(1, 3))]
+            st, tol = rng.random() < 0.5, rng.random() < 0.5
+            text = [render_utt(ws, sep, with_phones) for ws in utts]
+            out = call_impl(lambda: inst.syllabify(list(text), strip=st, tolerant=tol))
+            c = make_case(ons, vow, sep, filling, utts, with_phones, st, tol, 'history-same-instance', True)
+            c['impl'] = (lambda out=out: out)
+            fresh = impl_syllabify(ons, vow, sep, filling, text, st, tol)
+            c['oracle'] = (lambda o, fresh=fresh: None if o == fresh else
+                           'a reused Syllabifier returns %r, a fresh one %r for the same call' % (o, fresh))
+            cases.append(c)
     # bundled language data, words sampled from their own symbols (single-character vowels only)
     for lang in ('cspanish', 'catalan', 'chintang', 'japanese'):
         d = load_lang(lang)
